@@ -266,9 +266,10 @@ func (s *SoftwrapScanner) Scan() bool {
 			s.rest = []vaxis.Cell{}
 			// Append characters to token until we reach the end
 			for _, char := range word {
-				if w >= s.width {
+				if w >= s.width || (len(s.token) > 0 && w+uint16(char.Width) > s.width) {
 					// Append the rest to rest
 					s.rest = append(s.rest, char)
+					w = s.width
 					continue
 				}
 				s.token = append(s.token, char)
